@@ -715,15 +715,37 @@ class ConfigInformation:
 
     def validate(self):
         """Validate a value"""
+        validated: List["ConfigInformation"] = []
+        try:
+            self._validate(validated)
+        except Exception:
+            # A failed validation leaves no trace: everything is checked again next time
+            for info in validated:
+                info._validated = False
+            raise
+
+    @staticmethod
+    def _validate_value(value, validated: List["ConfigInformation"]):
+        """Validate the configurations held by a value (also within lists and dictionaries)"""
+        if isinstance(value, Config):
+            value.__xpm__._validate(validated)
+        elif isinstance(value, list):
+            for item in value:
+                ConfigInformation._validate_value(item, validated)
+        elif isinstance(value, dict):
+            for item in value.values():
+                ConfigInformation._validate_value(item, validated)
+
+    def _validate(self, validated: List["ConfigInformation"]):
         if not self._validated:
             self._validated = True
+            validated.append(self)
 
             # Check each argument
             for k, argument in self.xpmtype.arguments.items():
                 value = self.values.get(k)
                 if value is not None:
-                    if isinstance(value, Config):
-                        value.__xpm__.validate()
+                    ConfigInformation._validate_value(value, validated)
                 elif argument.required:
                     if not argument.generator:
                         raise ValueError(
@@ -733,11 +755,11 @@ class ConfigInformation:
 
             # Validate pre-tasks
             for pre_task in self.pre_tasks:
-                pre_task.__xpm__.validate()
+                pre_task.__xpm__._validate(validated)
 
             # Validate init tasks
             for init_task in self.init_tasks:
-                init_task.__xpm__.validate()
+                init_task.__xpm__._validate(validated)
 
             # Use __validate__ method
             if hasattr(self.pyobject, "__validate__"):
